@@ -5,6 +5,7 @@ package main
 // edge. A loop without an invariant is an engine error.
 
 import (
+	"go/ast"
 	"fmt"
 	"go/types"
 	"sort"
@@ -220,6 +221,20 @@ func (e *Engine) loopHeader(fr *Frame, h *ssa.BasicBlock, st *State) *State {
 	}
 	sort.Strings(gnames)
 	gmod, gall := e.ghostsModifiedIn(body, map[*ssa.Function]bool{}, 0)
+	if c := e.curContract; c != nil && fr.top {
+		for _, sa := range c.SiteAsserts {
+			if !sa.Ghost {
+				continue
+			}
+			if be, ok := sa.Cl.Expr.(*ast.BinaryExpr); ok {
+				if call, ok := be.X.(*ast.CallExpr); ok && len(call.Args) == 1 {
+					if id, ok := call.Args[0].(*ast.Ident); ok {
+						gmod[id.Name] = true
+					}
+				}
+			}
+		}
+	}
 	for _, name := range gnames {
 		if gall || gmod[name] {
 			ns.ghost[name] = e.vc.declare("GL_"+name, e.ghostSort(name))
